@@ -26,6 +26,9 @@ var (
 	verifTracePath string
 	verifTraceMu   sync.Mutex
 	verifCounter   uint64
+	// OW_SIM_DELAY_ONLY=<comma separated point names>: sleep only at these points
+	// (e.g. a slow writer: write-begin,write-end; a slow main loop: run-begin,links-begin)
+	verifDelayOnly map[string]bool
 )
 
 func init() {
@@ -37,6 +40,12 @@ func init() {
 		}
 	}
 	verifTracePath = os.Getenv("OW_SIM_TRACE")
+	if v := os.Getenv("OW_SIM_DELAY_ONLY"); v != "" {
+		verifDelayOnly = map[string]bool{}
+		for _, n := range strings.Split(v, ",") {
+			verifDelayOnly[n] = true
+		}
+	}
 }
 
 func verifMix(x uint64) uint64 {
@@ -56,7 +65,7 @@ func verifPoint(name string, generation int) {
 		}
 		verifTraceMu.Unlock()
 	}
-	if verifDelayMax > 0 {
+	if verifDelayMax > 0 && (verifDelayOnly == nil || verifDelayOnly[name]) {
 		h := uint64(0)
 		for _, ch := range name {
 			h = h*131 + uint64(ch)
